@@ -526,7 +526,8 @@ impl<'a> ProtocolMessage<'a> {
         let msg_key = r.read_bytes()?;
         let msg_val = r.read_bytes()?;
 
-        debug_assert!(r.is_empty());
+        // ~ bytes following the value are ignored; what a message
+        // contains is up to the remote side, not an invariant of ours
 
         Ok(ProtocolMessage {
             attr: msg_attr,
